@@ -39,6 +39,9 @@ func (r *beforeRunner) Do(op []string) string {
 		before := r.runs
 		ret := gogu.Before(&r.n, r.c, func() int { r.runs++; return r.base + r.runs })
 		return itoa(r.runs-before) + " " + itoa(ret)
+	case "purge": // what the cache's janitor does on every tick
+		r.c.DeleteExpired()
+		return "ok"
 	}
 	panic("harness: bad op " + op[0])
 }
@@ -57,6 +60,9 @@ func (r *onceRunner) Do(op []string) string {
 		before := r.runs
 		ret := gogu.Once[string, int, int](r.c, func() int { r.runs++; return r.base + r.runs })
 		return itoa(r.runs-before) + " " + itoa(ret)
+	case "purge": // what the cache's janitor does on every tick
+		r.c.DeleteExpired()
+		return "ok"
 	}
 	panic("harness: bad op " + op[0])
 }
@@ -153,12 +159,29 @@ func genC18(g *Gen) {
 			g.Emit("after", []string{itoa(n)}, ops)
 			g.Emit("before", []string{itoa(n), "-1", "100"}, ops)
 			g.Emit("before", []string{itoa(n), "-1", "-1"}, ops) // first result = zero value
+			// the cleanup of the cache (DeleteExpired, run by its janitor) between the calls must not matter: the
+			// entry does not expire -- neither with NoExpiration nor with a zero default duration
+			if calls >= 1 && calls <= 6 {
+				withPurge := interleave(ops, []string{"purge"})
+				g.Emit("before", []string{itoa(n), "-1", "100"}, withPurge)
+				g.Emit("before", []string{itoa(n), "0", "100"}, withPurge)
+				g.Emit("before", []string{itoa(n), "0", "-1"}, ops)
+			}
 		}
 	}
 	// Once: all call/sleep scripts (expiry 10ms; sleeps 4 / 7 / 11 ms) up to length 6/7
 	sl := 6
 	if g.Thorough() {
 		sl = 8
+	}
+	// ... and with the cache's cleanup (DeleteExpired) between the steps, incl. a zero default duration (never expires)
+	for _, exp := range []string{"-1", "0", "10"} {
+		seqsUpTo([]string{"call", "sleep 4", "sleep 11", "purge"}, sl-1, func(s []string) {
+			if !g.Mine() {
+				return
+			}
+			g.Emit("once", []string{exp, "100"}, append([]string{}, s...))
+		})
 	}
 	for _, exp := range []string{"-1", "10"} {
 		seqsUpTo([]string{"call", "sleep 4", "sleep 7", "sleep 11"}, sl, func(s []string) {
